@@ -51,7 +51,9 @@ def _bump(draw, v):
     if isinstance(v, int):
         return v + draw(st.sampled_from([1, -1]))
     if isinstance(v, float):
-        return v + draw(st.sampled_from([1.0, -1.0, 0.25]))
+        # (the last ones stay inside the validation tolerance: declared values that are merely "close")
+        return draw(st.sampled_from([v + 1.0, v - 1.0, v + 0.25, v * (1 + 8e-10) if v else 1e-300,
+                                     v * (1 - 8e-10) if v else -1e-300]))
     if isinstance(v, str):
         return v + "a" if draw(st.booleans()) or not v else v[:-1]
     if isinstance(v, bytes):
@@ -306,7 +308,43 @@ def _case(draw):
     probes.append(draw(values.junk))
     probes.append(draw(values.zoo))
     probes.append(...)
+    # float probes in the fringe between the tolerance windows of two close declared values
+    for sp in (spec, variant):
+        for s_, _ in (specs.walk(sp) if sp else ()):
+            if s_["t"] == "float" and isinstance(s_.get("value"), float) and s_["value"] == s_["value"] \
+                    and abs(s_["value"]) < 1e300 and len(probes) < 40:
+                x = s_["value"]
+                for f in (1 - 5e-10, 1 + 5e-10, 1 - 1.2e-9, 1 + 1.2e-9):
+                    whole = _replace_float(draw, sp, s_, x * f)
+                    if whole is not None:
+                        probes.append(whole)
     return {"spec": spec, "rebuild": rebuild, "variant": variant, "probes": probes}
+
+
+def _replace_float(draw, sp, node, y):
+    """a value conforming to sp in which the float governed by `node` is y (only for shapes where that
+    position is easy to find: the node itself, or a direct member of a dict / exact list)"""
+    if sp is node:
+        return y
+    if sp["t"] == "dict":
+        for e in sp.get("entries", []):
+            if e["spec"] is node:
+                try:
+                    base = draw(values.conforming(sp))
+                except values.Unsat:
+                    return None
+                base[e["key"]] = y
+                return base
+    if sp["t"] == "list" and sp.get("form") == "exact":
+        for i, e in enumerate(sp["elems"]):
+            if e is node:
+                try:
+                    base = draw(values.conforming(sp))
+                except values.Unsat:
+                    return None
+                base[i] = y
+                return base
+    return None
 
 
 def strategy(tier):
@@ -395,6 +433,36 @@ def check(case, ctx):
         if table[("S", "S''")] != table[("S'", "S''")]:
             raise Violation("not-transitive", f"S'==S, S==S'' is {table[('S', 'S' + chr(39) * 2)]} but S'==S'' differs")
 
+    # a schema derived from an object that already took part in comparisons equals an independent build
+    # of the same declaration (nothing learnt during == may stick to the object)
+    if case["spec"].get("order"):
+        last = case["spec"]["order"][-1]
+        shorter = dict(case["spec"], order=case["spec"]["order"][:-1])
+        shorter.pop(last, None)
+        try:
+            base = specs.build(shorter)
+            _eq(base, base, "base==base"), _eq(base, S, "base==S"), _eq(S, base, "S==base")
+            one = dict(case["spec"], order=[last])
+            for k in case["spec"]["order"][:-1]:
+                one.pop(k, None)
+            # apply the last refinement to the compared object, through the DSL
+            if last == "len":
+                derived = specs._apply_len(base, case["spec"]["len"])
+            elif last == "substr":
+                derived = base.contains(case["spec"]["substr"])
+            else:
+                derived = getattr(base, last)(case["spec"][last])
+        except DeclarationError:
+            derived = None
+        if derived is not None:
+            if canon.canon(derived) != canon.canon(S):
+                raise HarnessError("derive-after-compare rebuilt a different declaration")
+            if not _eq(derived, S, "derived==S") or not _eq(S, derived, "S==derived"):
+                raise Violation("derived-not-equal-to-rebuild",
+                                f"{base!r} was compared, then refined with {last}: the result {derived!r} "
+                                f"is not == an independent build of the same declaration")
+            ctx.label("derive-after-compare")
+
     # verdict vectors over the probes
     probes = [values.realize(p) for p in case["probes"]]
 
@@ -417,6 +485,19 @@ def check(case, ctx):
                                                f"{'no errors' if ok else 'errors'}")
     if vS != vS1:
         raise Violation("equal-but-verdicts-differ", f"{S!r} == {S1!r} yet verdicts differ on {probes!r}")
+    from d42 import substitute
+    for p, ok in zip(probes, vS):
+        if ok and not values.has_zoo(p) and p is not Ellipsis:
+            try:
+                d1, d2 = substitute(S, p), substitute(specs.build(case["spec"]), p)
+            except Exception:  # noqa  (C12)
+                break
+            if canon.canon(d1) == canon.canon(d2) and (not _eq(d1, d2, "S%v") or not _eq(d2, d1, "S%v")):
+                raise Violation("derived-not-equal-to-rebuild",
+                                f"({S!r} % {p!r}) from an object that took part in comparisons is not == the same "
+                                f"substitution into a fresh build")
+            ctx.label("substitute-after-compare")
+            break
     ctx.label("rebuild-pair")
     if case["rebuild"] != case["spec"]:
         ctx.label("rebuild-reordered")
